@@ -107,7 +107,7 @@ def run(tape, prop, tier):
     for _ in range(J):
         nsusp = tape.draw(3)
         jbeh.append(dict(sleeps=[tape.choice([0.0, 0.0, 1.5]) for _ in range(nsusp)],
-                         boom=tape.chance(0.2), spawn=tape.chance(0.3),
+                         boom=tape.chance(0.2), boom_cancelled=tape.chance(0.3), spawn=tape.chance(0.3),
                          spawn_at=tape.draw(horizon + 12), spawn_row=tape.draw(8)))
     npre_jobs = tape.draw(9 if prop == "C13" else 4)
     pre_jobs = [(tape.int(-5, horizon + 15), tape.draw(8)) for _ in range(npre_jobs)]
@@ -169,6 +169,10 @@ def run(tape, prop, tier):
                 if b["boom"]:
                     res.probes["job_raised"] += 1
                     res.faults["job_exception"] += 1
+                    if b["boom_cancelled"]:
+                        # e.g. a job that cancels a helper task and awaits it unguarded
+                        res.probes["job_raised_cancelled_error"] += 1
+                        raise asyncio.CancelledError()
                     raise RuntimeError("job boom")
             d.schedule(t(when_s), job)
 
@@ -258,7 +262,7 @@ def run(tape, prop, tier):
         try:
             await d.run(stop_signals=[])
             outcome["r"] = "returned"
-        except Exception as e:      # the run must end by itself without error
+        except (Exception, asyncio.CancelledError) as e:      # the run must end by itself without error
             outcome["r"] = f"raised {type(e).__name__}: {e}"
         return loop
 
